@@ -4,7 +4,7 @@ import dataclasses
 import enum
 import operator as _op
 import z3
-from .values import (Unsupported, Obj, EnumSym, SBytes, Guarded, Opaque, SList, SDict, UNDEF, Undefined)
+from .values import (Unsupported, Obj, EnumSym, SBytes, Guarded, Opaque, SList, SDict, UNDEF, Undefined, UNSIGNED_VARS)
 
 _PYOPS = {ast.Add: _op.add, ast.Sub: _op.sub, ast.Mult: _op.mul, ast.Div: _op.truediv,
           ast.FloorDiv: _op.floordiv, ast.Mod: _op.mod, ast.Pow: _op.pow, ast.LShift: _op.lshift,
@@ -74,10 +74,24 @@ class Arith:
     def int_var(self, name, lo=None, hi=None):
         """fresh symbolic int; range becomes an assumption; returns the term"""
         if self.mode == "bv":
-            t = z3.BitVec(name, self.W)
             if lo is None or hi is None:
                 raise Unsupported("bv int_var needs a range")
-            self.assumptions.append(z3.And(t >= self.const(lo), t <= self.const(hi)))
+            # a narrow variable extended to W bits: the unused high bits are syntactically constant, so packed
+            # header octets that do not depend on the variable fold to constants
+            if lo >= 0:
+                k = max(hi.bit_length(), 1)
+                v = z3.BitVec(name, k)
+                UNSIGNED_VARS.add(name)
+                t = z3.ZeroExt(self.W - k, v) if k < self.W else v
+                if hi != (1 << k) - 1:
+                    self.assumptions.append(z3.ULE(v, z3.BitVecVal(hi, k)))
+                if lo > 0:
+                    self.assumptions.append(z3.UGE(v, z3.BitVecVal(lo, k)))
+            else:
+                k = max(max(hi.bit_length(), (-lo - 1).bit_length()) + 1, 9)     # >8 bits: read back as signed
+                v = z3.BitVec(name, k)
+                t = z3.SignExt(self.W - k, v) if k < self.W else v
+                self.assumptions.append(z3.And(v >= z3.BitVecVal(lo, k), v <= z3.BitVecVal(hi, k)))
             self.mag[t.get_id()] = max(abs(lo), abs(hi)).bit_length()
         else:
             t = z3.Int(name)
